@@ -656,6 +656,13 @@ def part2(*args, **kwargs): return functools.partial(g, *args, **kwargs)
 def recursive(*args, **kwargs): return recursive(*args, **kwargs)
 def mutual_a(*args, **kwargs): return mutual_b(*args, **kwargs)
 def mutual_b(*args, **kwargs): return mutual_a(*args, **kwargs)
+def recur_n(n, *args, **kwargs): return recur_n(n - 1, *args, **kwargs)
+def recur_kw(*args, depth=0, **kwargs): return recur_kw(*args, depth=depth + 1, **kwargs)
+def recur_lit(*args, **kwargs): return recur_lit(0, *args, key=None, **kwargs)
+def cycle_a(x, *args, **kwargs): return cycle_b(x + 1, *args, **kwargs)
+def cycle_b(y, *args, **kwargs): return cycle_a(y * 2, *args, **kwargs)
+class Rec:
+    def walk(self, path, *args, **kwargs): return self.walk(path[1:], *args, **kwargs)
 def unresolved(*args, **kwargs): return missing_name(*args, **kwargs)
 def notcallable(*args, **kwargs): return (3)(*args, **kwargs)
 def builtin(*args, **kwargs): return print(*args, **kwargs)
@@ -692,7 +699,8 @@ OBJECTS = [lam, lam2, coro, gen, agen, walrus, matcher, comp, dcomp, starred, gl
            # partial objects that can never be called: inspect.signature raises ValueError, so must sigtools
            functools.partial(g, 1, 2, 3), functools.partial(g, 1, a=2), functools.partial(kwonly, 1),
            functools.partial(onearg, g, 1, 2, 3), functools.partial(functools.partial(g, 1), 2, 3),
-           functools.partial(kwstar, 0, 1, 2), functools.partial(kwstar, 0, a=1)]
+           functools.partial(kwstar, 0, 1, 2), functools.partial(kwstar, 0, a=1),
+           recur_n, recur_kw, recur_lit, cycle_a, cycle_b, Rec().walk, Rec.walk, functools.partial(recur_n, 3)]
 '''
 
 
@@ -701,8 +709,13 @@ def rt_adversarial(req):
     mod, fname = progs.load_module(ADV_OBJECT_SOURCES)
     problems = []
     n = 0
+    import builtins
     try:
-        for obj in mod.OBJECTS:
+        # second pass: the namespace a script / an interactive session has -- `__builtins__` bound to the module, not its dict
+        for obj in list(mod.OBJECTS) + ['builtins-module'] + list(mod.OBJECTS):
+            if obj == 'builtins-module':
+                mod.__dict__['__builtins__'] = builtins
+                continue
             n += 1
             insp = _outcome(inspect.signature, obj)
             for name, fn in (('sigtools.signature', sigtools.signature),
